@@ -210,7 +210,7 @@ def e_redeclared_property(doc, rnd):
 
 def e_enums(doc, rnd):
     doc["enumerations"] += [
-        {"name": "VerifColor", "type": {"kind": "base", "name": "string"}, "values": [{"name": "Red", "value": "red"}, {"name": "Green", "value": "green", "proposed": True}, {"name": "Empty", "value": ""}]},
+        {"name": "VerifColor", "type": {"kind": "base", "name": "string"}, "values": [{"name": "Red", "value": "red"}, {"name": "Green", "value": "green", "proposed": True}, {"name": "Empty", "value": ""}, {"name": "Thumb", "value": "ok\U0001F44D"}, {"name": "Umlaut", "value": "gr\u00fcn"}, {"name": "Spaced", "value": "dark red"}]},
         {"name": "VerifLevel", "type": {"kind": "base", "name": "uinteger"}, "values": [{"name": "Zero", "value": 0}, {"name": "Low", "value": 1}, {"name": "High", "value": 2, "proposed": True}]},
     ]
     next(e for e in doc["enumerations"] if e["name"] == "DiagnosticTag")["values"].append({"name": "Experimental", "value": 3, "proposed": True})
@@ -228,13 +228,24 @@ def e_messages(doc, rnd):
     add_request(doc, "verif/noParams", "VerifNoParamsRequest", None, arr(ref("Location")))
     add_notification(doc, "verif/didFoo", "VerifDidFooNotification", ref("VerifFooParams"), messageDirection="clientToServer")
     add_notification(doc, "$/verifTick", None, ref("VerifFooParams"), messageDirection="both")
+    # method names that contain the words Request / Notification themselves
+    add_request(doc, "verifRequest/list", None, ref("VerifFooParams"), arr(ref("Location")))
+    add_request(doc, "verifRequest/create", None, ref("VerifFooParams"), N)
+    add_request(doc, "verifRequest/refresh", "VerifRequestRefreshRequest", None, N)
+    add_notification(doc, "verifNotification/changed", None, ref("VerifFooParams"))
 
 
 def e_marks(doc, rnd):
     doc["structures"].append({"name": "VerifProposed", "properties": [prop("a", S), prop("b", U, True, proposed=True, since="3.18.0")], "proposed": True, "since": "3.18.0", "documentation": "Proposed thing.\n@since 3.18.0\n@proposed"})
     doc["structures"].append({"name": "VerifDeprecated", "properties": [prop("old", S, True, deprecated="use new"), prop("new", S, True, sinceTags=["3.18.0", "3.18.1 - changed"])], "deprecated": "gone soon"})
+    # explicit `false` marks (schema-valid, never written by the committed model) and since texts wrapped with CR LF / CR
+    doc["structures"].append({"name": "VerifStable", "proposed": False, "since": "3.18.0 - wrapped\r\nover two lines", "properties": [prop("s", S, True, proposed=False, sinceTags=["3.17.0", "3.18.0 - changed\rlater"]), prop("t", U, True, proposed=False)]})
+    doc["enumerations"].append({"name": "VerifStableKind", "type": S, "proposed": False, "values": [{"name": "A", "value": "a", "proposed": False}, {"name": "B", "value": "b", "since": "3.18.0\r\n(second line)"}]})
+    doc["typeAliases"].append({"name": "VerifStableName", "type": S, "proposed": False})
+    add_request(doc, "verif/stable", "VerifStableRequest", ref("VerifStable"), orn(ref("VerifStable")), proposed=False)
+    add_notification(doc, "verif/stableNote", "VerifStableNoteNotification", ref("VerifStable"), proposed=False)
     host = struct(doc, optional_sites(doc, rnd, 1)[0])
-    host["properties"] += [prop("verifProposed", ref("VerifProposed"), True, proposed=True), prop("verifDeprecated", ref("VerifDeprecated"), True)]
+    host["properties"] += [prop("verifProposed", ref("VerifProposed"), True, proposed=True), prop("verifDeprecated", ref("VerifDeprecated"), True), prop("verifStable", ref("VerifStable"), True, proposed=False), prop("verifStableKind", ref("VerifStableKind"), True)]
     # marks on existing plain (non-`or`) aliases: base-typed, array-typed and reference-typed ones
     for an, mark in (
         ("Pattern", {"deprecated": "use GlobPattern", "since": "3.17.0"}),
@@ -300,6 +311,9 @@ def e_message_shapes(doc, rnd):
     ]
     add_request(doc, "textDocument/verifQuery", "VerifQueryRequest", ref("VerifQueryParams"), orn(arr(ref("Location"))), partialResult=arr(ref("Location")), registrationOptions=ref("VerifQueryRegistrationOptions"), errorData=ref("VerifQueryError"))
     add_request(doc, "verif/count", "VerifCountRequest", None, U)
+    add_request(doc, "verif/kind", "VerifKindRequest", None, ref("MarkupKind"))
+    add_request(doc, "verif/kinds", "VerifKindsRequest", None, orn(arr(ref("SymbolKind"))))
+    add_request(doc, "verif/kindByName", "VerifKindByNameRequest", None, {"kind": "map", "key": S, "value": ref("DiagnosticSeverity")})
     add_request(doc, "verif/names", "VerifNamesRequest", ref("VerifEmpty"), arr(S), messageDirection="serverToClient")
     add_notification(doc, "verif/ping", "VerifPingNotification", None)
     add_notification(doc, "textDocument/verifDidQuery", "VerifDidQueryNotification", ref("VerifQueryParams"), messageDirection="clientToServer", registrationOptions=ref("VerifQueryRegistrationOptions"))
